@@ -121,6 +121,7 @@ def run(chk):
 
     # ---- L shadow index readers
     nread = 0
+    lazy = tf.lazy_creators(c)      # functions whose every creation goes to the shadow channel, wherever they live
     for fn in te.funcs:
         for n in own_nodes(fn.node):
             if isinstance(n, ast.Attribute) and n.attr == 'traversal_indexes':
@@ -131,7 +132,7 @@ def run(chk):
                        'is consulted outside the lookup/creation code', '%s:%d' % (fn.module.relpath, n.lineno),
                        key='C10-L|%s|traversal_indexes' % fn.qualname)
             if isinstance(n, ast.Attribute) and n.attr == 'traversal_list':
-                ok = fn.qualname in TRAVERSAL_LIST_USERS
+                ok = fn.qualname in TRAVERSAL_LIST_USERS or fn.qualname in lazy
                 chk.ob('C10-L', '%s reads traversal_list' % fn.qualname, ok,
                        '' if ok else 'ElementProxy.traversal_list used outside the lazy-creation code',
                        '%s:%d' % (fn.module.relpath, n.lineno), key='C10-L|%s|traversal_list' % fn.qualname)
